@@ -58,6 +58,7 @@ type World struct {
 	evMu        sync.Mutex
 	evLog       []agent.Event // verifPoint events reported by the agent
 	pendingWait func()
+	notifyDropped bool
 	DdnMs    int       // notification interval set through the hook (0 = the code's 20 s)
 	t0       time.Time // start of the world (time stamps of report events)
 	HoldFar     time.Duration // C14: delay of farLookup add commands while a modification with SNDEM is processed
@@ -260,7 +261,7 @@ func (w *World) StartAgent() error {
 		go w.serveEndMarkers()
 	}
 
-	if w.Cfg.NotifyBess && w.NotifyL == nil {
+	if w.Cfg.NotifyBess && w.NotifyL == nil && !w.notifyDropped {
 		if w.NotifyL, err = w.listenUnixpacket("notify.sock"); err != nil {
 			return err
 		}
@@ -604,4 +605,21 @@ func (w *World) snapJSON() map[string]interface{} {
 	}
 
 	return map[string]interface{}{"has": true, "ipHeld": held, "ipFree": free, "teidCount": tc, "store": store, "gauge": g, "connected": sn.Connected}
+}
+
+// DropNotifySocket closes the notify listener and removes its socket file: the next incarnation of the agent
+// is configured to use it but cannot dial it (an environment fault at start-up).
+func (w *World) DropNotifySocket() {
+	if w.NotifyL != nil {
+		w.NotifyL.Close()
+		w.NotifyL = nil
+	}
+
+	if w.NotifyC != nil {
+		w.NotifyC.Close()
+		w.NotifyC = nil
+	}
+
+	_ = os.Remove(filepath.Join(w.Dir, "notify.sock"))
+	w.notifyDropped = true
 }
